@@ -120,6 +120,21 @@ def run(F, tier):
                         "%s does not override parse_from_block4: the panicking trait default is reachable through "
                         "every generic parse entry point" % G.short(t)))
     r4["unjudged_nonconstant"] = unjudged
+    # P2b: the end bound `t + c` of a string slice against the length of the text (relational part of P2)
+    r2b = rep.rule("P2b", "a string slice whose end is `<variable> + <constant>` is dominated by a guard that implies "
+                          "variable + constant <= text.len() (enclosing `<=` test, earlier `if .. > len { leave }`, "
+                          "left operand of &&) with the variable unchanged in between", floor=4)
+    for s in led:
+        if s.kind == "P2" and s.node.get("k") == "index":
+            j = judges.setdefault(s.fn["path"], relidx.Judge(s.fn))
+            v = relidx.judge_str_end(j, s.node)
+            if v is None:
+                continue
+            r2b["instances"] += 1
+            if v == "finding":
+                rep.add(Finding("P2b", s.fn["path"], s.text,
+                                "%s takes %s without a dominating test that the end of the range lies inside the "
+                                "text: a shorter input panics" % (s.fn["path"], s.text), s.fn["file"], s.node.get("ln")))
     # P5: recursion cycles and loops (listed)
     cg = CallGraph(F)
     nodes = set(p for p in F.mir if not F.mir[p].get("exp"))
